@@ -68,7 +68,8 @@ def config_for(cmd: str, variant: str) -> dict:
 
 # twin_neighbour: base settings, and a file with the SAME TEXT under another language's extension is linted first in the
 # same run (a file is analysed according to ITS extension, whatever else is in the run)
-VARIANTS = ("base", "others_disabled", "others_extreme", "others_ignore", "twin_neighbour")
+# other_cwd: base settings, the command is started in another directory and names the project by its absolute path
+VARIANTS = ("base", "others_disabled", "others_extreme", "others_ignore", "twin_neighbour", "other_cwd")
 TWIN_EXT = {"ts": "rs", "tsx": "rs", "js": "rs", "jsx": "rs", "rs": "ts"}
 
 
@@ -95,10 +96,14 @@ def job(j: dict) -> dict:
     (root / "zzz_notes").write_text(PY)
     if variant == "twin_neighbour":
         (root / ("aaa_twin." + TWIN_EXT[j["ext"].lower().split(".")[-1]])).write_text(sb + CONTENT[j["content"]])
-    (root / ".thailint.yaml").write_text(yaml.safe_dump(config_for(cmd, "base" if variant == "twin_neighbour" else variant)))
+    (root / ".thailint.yaml").write_text(yaml.safe_dump(config_for(cmd, "base" if variant in ("twin_neighbour", "other_cwd") else variant)))
     # (the twin is named first so that it is analysed before the probe files whatever the directory order is)
     twin = [n for n in os.listdir(root) if n.startswith("aaa_twin.")]
-    r = drive.cli_json([cmd] + twin + ["."], cwd=root)
+    if variant == "other_cwd":
+        (root.parent / "elsewhere").mkdir(exist_ok=True)
+        r = drive.cli_json([cmd, str(root)], cwd=root.parent / "elsewhere")
+    else:
+        r = drive.cli_json([cmd] + twin + ["."], cwd=root)
     bag = None
     if r["violations"] is not None:
         bag = sorted(canon([v["rule_id"], v["file_path"].split(".")[0].split("/")[-1], v["line"], v["column"],
@@ -146,6 +151,8 @@ def run(chk) -> None:
         for variant in VARIANTS:
             if variant == "twin_neighbour" and j["ext"].lower().split(".")[-1] not in TWIN_EXT:
                 continue        # only the tree-sitter languages have a counterpart to be confused with
+            if variant == "other_cwd" and quick and not (j["shebang"] != "no" or j["ext"] in ("none", "py", "ts", "rs", "txt")):
+                continue
             for cmd in j["cmds"]:
                 if variant == "twin_neighbour" and cmd in ("dry", "stringly-typed"):
                     continue    # cross-file rules legitimately see the twin's text as further evidence
@@ -168,7 +175,9 @@ def run(chk) -> None:
             if ext in lower and (lower[ext], sb, content) in by and f"base:{cmd}" in by[(lower[ext], sb, content)][1]:
                 same_canon = by[(lower[ext], sb, content)][1][f"base:{cmd}"]["bag"] == o["bag"]
             same_other = all(val[f"{v}:{cmd}"]["bag"] == o["bag"] and (v == "twin_neighbour" or val[f"{v}:{cmd}"]["exit"] == o["exit"])
-                             for v in VARIANTS[1:] if f"{v}:{cmd}" in val)
+                             for v in VARIANTS[1:-1] if f"{v}:{cmd}" in val)
+            oc = val.get(f"other_cwd:{cmd}")
+            same_cwd = oc is None or (oc["bag"] == o["bag"] and oc["exit"] == o["exit"])
             found = sorted({tuple(f) for v in VARIANTS if f"{v}:{cmd}" in val
                             for f in val[f"{v}:{cmd}"]["found"]})
             linters = sorted({l for k_, l in found if k_ == "probe"})
@@ -176,7 +185,8 @@ def run(chk) -> None:
                             "tool_linters": sorted({l for k_, l in found if k_ == "tool"}),
                             "notes_linters": sorted({l for k_, l in found if k_ == "notes"}),
                             "exit": o["exit"] if o["exit"] is not None else -9,
-                            "same_as_canonical": same_canon, "same_with_other_settings": same_other})
+                            "same_as_canonical": same_canon, "same_with_other_settings": same_other,
+                            "same_from_other_cwd": same_cwd})
             meta.append(({"ext": ext, "shebang": sb, "content": content, "cmd": cmd}, o, val))
     verdicts = trace.validate(chk, "LanguagesTrace", "mc/LanguagesTrace.cfg", records)
     for (case, o, val), rec, (la, lb, at) in zip(meta, records, verdicts):
@@ -184,7 +194,8 @@ def run(chk) -> None:
         if la == "ok":
             continue
         diffs = [v for v in VARIANTS[1:]
-                 if val[f"{v}:{case['cmd']}"]["bag"] != o["bag"]] if la == "OtherSectionsMatter" else []
+                 if f"{v}:{case['cmd']}" in val and val[f"{v}:{case['cmd']}"]["bag"] != o["bag"]] \
+            if la in ("OtherSectionsMatter", "LanguageDependsOnCwd") else []
         chk.reject({"clause": la, "cmd": case["cmd"], "ext": case["ext"], "shebang": case["shebang"],
                     "content": case["content"], "linters": rec["linters"], "variants": diffs},
                    dict(case, rules=o["rules"], exit=o["exit"], stderr=o["stderr"]),
